@@ -86,6 +86,10 @@ def harvest(mol, es):
         "nocc": npy(mol.nocc), "norb": npy(mol.norb),
         "tdip": npy(getattr(mol, "transition_dipole", None)),
     }
+    if getattr(mol, "all_forces", None) is not None:  # seqm_parameters["do_all_forces"]
+        out["all_forces"] = npy(mol.all_forces)
+        out["state_dip_relaxed"] = npy(getattr(mol, "all_cis_relaxed_diploles", None))
+        out["state_dip_unrelaxed"] = npy(getattr(mol, "all_cis_unrelaxed_diploles", None))
     nac = getattr(mol, "nac", None)
     if isinstance(nac, dict):
         out["nac"] = {"%d-%d" % k: npy(v) for k, v in nac.items()}
